@@ -201,10 +201,46 @@ func c19Exhaustive(variant int) []verifh.Section {
 	return out
 }
 
+// c19ExhaustiveInj: every sequence  <base> <base> <inj> <tail>  on one key with two instances: all calls,
+// both positions, and the inner blocks that matter (lease runs out and the competitor acquires / competitor
+// acquires / competitor releases / one millisecond passes) — the class "something happens between the Redis
+// commands of one call" enumerated on a small scope (thorough tier).
+func c19ExhaustiveInj() []verifh.Section {
+	base := []string{"acquire 0", "acquire 1", "release 0", "ft 499", "ft 1", "scriptflush"}
+	tail := []string{"acquire 0", "acquire 1", "release 0", "release 1", "ft 500"}
+	var injs []string
+	for _, call := range []string{"acquire", "release"} {
+		for i := 0; i < 2; i++ {
+			o := 1 - i
+			for p := 1; p <= 2; p++ {
+				for _, inner := range []string{
+					fmt.Sprintf("ft 500 ; acquire %d", o), fmt.Sprintf("acquire %d", o), fmt.Sprintf("release %d", o), "ft 1",
+				} {
+					injs = append(injs, fmt.Sprintf("inj %d %s %d [ %s ]", p, call, i, inner))
+				}
+			}
+		}
+	}
+	var out []verifh.Section
+	for _, a := range base {
+		for _, b := range base {
+			for _, c := range injs {
+				for _, d := range tail {
+					out = append(out, verifh.Section{Cfg: "n=2 keys=1", Ops: []string{a, b, c, d}})
+				}
+			}
+		}
+	}
+	return out
+}
+
 func c19Gen(r *verifh.Rng) []verifh.Section {
 	var secs []verifh.Section
 	if verifh.Thorough() {
 		secs = append(secs, c19Exhaustive(int(verifh.Seed()%3))...)
+		if verifh.Seed()%3 == 1 {
+			secs = append(secs, c19ExhaustiveInj()...)
+		}
 	}
 	nsec := verifh.Scale(150, 800)
 	for s := 0; s < nsec; s++ {
